@@ -617,9 +617,13 @@ func (vc *VC) callEffects(c *ssa.CallCommon, mods map[string]bool, depth int) bo
 			return false
 		}
 		if !con.ModSet {
-			return true
+			return vc.addInferred(callee, mods)
 		}
 		return vc.contractEffects(con, callee, mods)
+	}
+	if depth >= 99 {
+		// direct-effects mode (effects.go): callees are handled by the caller
+		return false
 	}
 	if vc.eng.inlinable(callee, con) && depth < 4 {
 		all := false
@@ -632,7 +636,24 @@ func (vc *VC) callEffects(c *ssa.CallCommon, mods map[string]bool, depth int) bo
 		}
 		return all
 	}
-	return true
+	return vc.addInferred(callee, mods)
+}
+
+func (vc *VC) addInferred(callee *ssa.Function, mods map[string]bool) bool {
+	if callee == nil || !isRepoFunc(callee) || len(callee.Blocks) == 0 {
+		return true
+	}
+	es := vc.eng.inferredEffects(callee)
+	if es.all {
+		return true
+	}
+	for v := range es.vars {
+		if _, inScope := vc.heapSort[v]; inScope {
+			mods[v] = true
+		}
+	}
+	mods["CLK"] = true
+	return false
 }
 
 // contractEffects translates a modifies list into whole heap variables.
@@ -786,7 +807,7 @@ func (fr *Frame) step(st *State, instr ssa.Instruction) bool {
 		el := x.Type().Underlying().(*types.Pointer).Elem()
 		r := vc.allocate(st, el, fr.prefix+x.Name())
 		fr.setVal(x, r)
-		if !x.Heap && fr.nonEscaping(x) {
+		if fr.nonEscaping(x) {
 			st.locals = append(st.locals, localRef{r, el})
 		}
 	case *ssa.FieldAddr:
@@ -984,6 +1005,12 @@ func (fr *Frame) nonEscaping(a *ssa.Alloc) bool {
 					return false
 				}
 			case *ssa.DebugRef:
+			case *ssa.MakeClosure:
+				// captured by a closure that is only deferred / called here and
+				// only loads and stores the captured variable
+				if !closureKeepsLocal(y, v) {
+					return false
+				}
 			default:
 				return false
 			}
@@ -1262,6 +1289,7 @@ func (fr *Frame) unop(st *State, x *ssa.UnOp) {
 			}
 			fr.defineVal(x, t)
 			vc.introduce(st, fr.vals[x].T, el)
+			vc.rangeFact(p.Var, fr.vals[x].T)
 			return
 		}
 		if _, isAlloc := x.X.(*ssa.Alloc); !isAlloc {
@@ -1782,7 +1810,9 @@ func (fr *Frame) panicAt(st *State, x *ssa.Panic) {
 		anchor = "unreachable: panic(" + fr.exprText(mi.X) + ")"
 	}
 	fr.oblige(st, "panic", anchor, goal, x.Pos())
-	fr.panicIf(st, "true", "panic at "+anchor)
+	if vc.con == nil || len(vc.con.Panics) == 0 {
+		fr.panicIf(st, "true", "panic at "+anchor)
+	}
 }
 
 func isConstRune(v ssa.Value) bool {
@@ -1804,4 +1834,68 @@ func (vc *VC) floatLit(v constant.Value) Term {
 		}
 	}
 	return vc.floatConst(v.ExactString())
+}
+
+// closureKeepsLocal: mc captures v; the closure value is used only as the callee
+// of defer/call in this function, and inside the closure the captured variable
+// is only read and written (its address does not travel further).
+func closureKeepsLocal(mc *ssa.MakeClosure, v ssa.Value) bool {
+	if mc.Referrers() == nil {
+		return false
+	}
+	for _, r := range *mc.Referrers() {
+		switch y := r.(type) {
+		case *ssa.Defer:
+			if y.Call.Value != ssa.Value(mc) {
+				return false
+			}
+		case *ssa.Call:
+			if y.Call.Value != ssa.Value(mc) {
+				return false
+			}
+		case *ssa.DebugRef:
+		default:
+			return false
+		}
+	}
+	fn, ok := mc.Fn.(*ssa.Function)
+	if !ok {
+		return false
+	}
+	for i, b := range mc.Bindings {
+		if b != v {
+			continue
+		}
+		fv := fn.FreeVars[i]
+		if fv.Referrers() == nil {
+			continue
+		}
+		var okUse func(val ssa.Value, rs []ssa.Instruction) bool
+		okUse = func(val ssa.Value, rs []ssa.Instruction) bool {
+			for _, r := range rs {
+				switch y := r.(type) {
+				case *ssa.UnOp:
+					if y.Op != token.MUL {
+						return false
+					}
+				case *ssa.Store:
+					if y.Addr != val {
+						return false
+					}
+				case *ssa.FieldAddr:
+					if y.X != val || (y.Referrers() != nil && !okUse(y, *y.Referrers())) {
+						return false
+					}
+				case *ssa.DebugRef:
+				default:
+					return false
+				}
+			}
+			return true
+		}
+		if !okUse(fv, *fv.Referrers()) {
+			return false
+		}
+	}
+	return true
 }
